@@ -173,6 +173,8 @@ def gen_observer(cfg, rs, enabled):
     if k == 'export_nobn' and cfg['method'] != 'pit':
         k = 'export'
     op = {'op': k}
+    if rs.chance(0.25):
+        op['no_grad'] = True          # the observer is called inside torch.no_grad() (only honoured for injected calls)
     if k == 'get_cost':
         op['i'] = rs.randint(0, 1)
     if k == 'switch_spec_and_back':
